@@ -39,7 +39,7 @@ def unit_fn(unit):
     pyopts = {k: (tuple(tuple(r) for r in v) if isinstance(v, list) else v) for k, v in opts.items()}
 
     def body():
-        x, chars = E.symstr(L)
+        x, chars = common.sym_input(E, unit)
         rec = {'x': x}
         try:
             rec['v'] = mod.validate(x, **pyopts)
@@ -273,4 +273,10 @@ def make_units(prop, tier, only=None):
                 else:
                     u.update(max_paths=50000, timeout=600, query_timeout_ms=60000)
                 units.append(u)
+        import random
+        rnd = random.Random(common.seed() * 7919 + len(units))
+        for lit, pos in common.neighbourhoods(info, 2 if tier == 'quick' else 12, rnd):
+            u = {'prop': prop, 'module': modname, 'options': {}, 'L': len(lit), 'K': 2, 'literal': lit, 'positions': pos, 'is_valid_takes_options': True}
+            u.update(dict(max_paths=300, timeout=10, query_timeout_ms=5000) if tier == 'quick' else dict(max_paths=5000, timeout=120, query_timeout_ms=30000))
+            units.append(u)
     return units
